@@ -62,12 +62,19 @@ Inductive pop :=
 | QDelete (k : key).
 Record qstep := mkQStep { p_op : pop; p_ret : list (tid * res) }.
 
+(** free-running stress: one record per call of WaitForVersionChange: the version
+    it was given, the states (Some version / None = absent) its key may have had
+    between invocation and return according to the writers' history, whether its
+    context was cancelled before it returned, and what it returned *)
+Record srec := mkSRec { sr_v : N; sr_cands : list (option N); sr_cancelled : bool; sr_res : res }.
+
 Inductive case :=
 | CaseMem (id : N) (keys : list key) (steps : list sstep)
-| CasePoll (id : N) (steps : list qstep) (still_waiting : list tid).
+| CasePoll (id : N) (steps : list qstep) (still_waiting : list tid)
+| CaseStress (id : N) (recs : list srec).
 
 Definition c_id (c : case) : N :=
-  match c with CaseMem id _ _ => id | CasePoll id _ _ => id end.
+  match c with CaseMem id _ _ => id | CasePoll id _ _ => id | CaseStress id _ => id end.
 
 (** * the in-memory check *)
 Definition res_eqb (a b : res) : bool :=
@@ -381,9 +388,18 @@ Definition run_poll (steps : list qstep) (waiting : list tid) : option (list pw)
   | None => None
   end.
 
+(** * stress: the result of every call is one the property allows *)
+Definition srec_ok (x : srec) : bool :=
+  match sr_res x with
+  | RNil => existsb (fun c => match c with Some v' => negb (N.eqb v' (sr_v x)) | None => false end) (sr_cands x)
+  | RNotExist => existsb (fun c => match c with None => true | Some _ => false end) (sr_cands x)
+  | RCtx => sr_cancelled x
+  end.
+
 (** * the check *)
 Definition check_case (c : case) : bool :=
   match c with
+  | CaseStress _ recs => forallb srec_ok recs
   | CaseMem _ keys steps => match run_mem keys steps with Some _ => true | None => false end
   | CasePoll _ steps waiting => match run_poll steps waiting with Some _ => true | None => false end
   end.
@@ -398,7 +414,8 @@ Record view := mkView {
   vw_ret : list (tid * res);
   vw_parked : list tid;
   vw_tbl : list (key * option (chan * Z));
-  vw_store : list (key * option N) }.
+  vw_store : list (key * option N);
+  vw_observed : option obs }.          (* at the step that disagrees: what the implementation did *)
 
 Fixpoint explain_steps (keys : list key) (v : vstate) (l : list sstep) : list view :=
   match l with
@@ -406,17 +423,17 @@ Fixpoint explain_steps (keys : list key) (v : vstate) (l : list sstep) : list vi
   | x :: tl =>
       let s := v_st v in
       match apply_sop s (v_vb v) (s_op x) with
-      | None => [mkView false [] [] [] [] []]
+      | None => [mkView false [] [] [] [] [] (Some (s_obs x))]
       | Some (s1, _, ls1) =>
           match saturate sat_fuel s1 [] with
-          | None => [mkView false ls1 [] [] [] []]
+          | None => [mkView false ls1 [] [] [] [] (Some (s_obs x))]
           | Some (s2, ls2) =>
-              let w ok := mkView ok (ls1 ++ ls2) (newly_done s s2) (parked_list (thr s2) 0)
+              let w ok ob := mkView ok (ls1 ++ ls2) (newly_done s s2) (parked_list (thr s2) 0)
                                  (map (fun k => (k, tbl s2 k)) keys)
-                                 (map (fun k => (k, option_map r_ver (store s2 k))) keys) in
+                                 (map (fun k => (k, option_map r_ver (store s2 k))) keys) ob in
               match check_step keys v x with
-              | Some v' => w true :: explain_steps keys v' tl
-              | None => [w false]
+              | Some v' => w true None :: explain_steps keys v' tl
+              | None => [w false (Some (s_obs x))]
               end
           end
       end
@@ -426,4 +443,5 @@ Definition explain (c : case) : N * bool * list view :=
   match c with
   | CaseMem id keys steps => (id, check_case c, explain_steps keys vinit steps)
   | CasePoll id _ _ => (id, check_case c, [])
+  | CaseStress id _ => (id, check_case c, [])
   end.
